@@ -658,7 +658,10 @@ size_t rtosc_print_arg_val(const rtosc_arg_val_t *arg,
         case 'a':
         {
             char* last_sep = buffer - 1;
-            int args_written_this_line = (*cols_used) ? 1 : 0;
+            // the bracket can only move to a new line if a separator precedes
+            // it (and not e.g. the 'x' of "3x[...]")
+            int args_written_this_line =
+                (*cols_used && isspace(*last_sep)) ? 1 : 0;
             STACKALLOC(rtosc_arg_val_t, args_converted, rtosc_arg_arr_len(val)); // range conversion
 
             COUNT_UP_WRITE('[');
